@@ -147,7 +147,7 @@ func isoTrees(e *Env, r *rand.Rand, parent string, hostileNames bool) []isoCase 
 // bigFileTrees creates trees with synthetic (sparse) files around the 4 GiB extent limits.
 func bigFileTrees(e *Env, parent string) []isoCase {
 	part := int64(0xFFFFF800)
-	sizes := [][]int64{{1<<32 + 1, 5, 1, 2, 3, 4, 5, 6, 7, 8, 9, 10, 11, 12, 13, 14, 15, 16}}
+	sizes := [][]int64{{1<<32 + 1, 5, 1, 2, 3, 4, 5, 6, 7, 8, 9, 10, 11, 12, 13, 14, 15, 16}, {2 * part, 1}}
 	if e.Thorough {
 		sizes = [][]int64{{1<<32 - 2048}, {1<<32 - 1, 0, 7}, {1 << 32}, {1<<32 + 1, 5}, {2*part - 1, 2 * part, 3}, {2*part + 1}, {9 << 30, 100, 1, 2, 3, 4, 5, 6, 7, 8, 9, 10, 11, 12, 13, 14}}
 	}
